@@ -41,7 +41,7 @@ FAULTS = [
 ]
 CONTAINERS = {"3mf", "glb", "zip_stl", "zip_ply", "zip_glb", "zip_obj_mtl", "targz_obj", "tarbz2_ply", "bz2_stl"}
 TEXTUAL = {"gltf", "dae", "svg", "dxf", "obj", "obj_mtl", "off", "ply_ascii", "stl_ascii", "dict", "dict64", "xyz"}
-AMPLIFIED = {"dxf", "glb", "gltf", "3mf", "obj", "obj_mtl", "stl_ascii", "stl", "svg", "3dxml"}
+AMPLIFIED = {"bz2_stl", "dxf", "glb", "gltf", "3mf", "obj", "obj_mtl", "stl_ascii", "stl", "svg", "3dxml"}
 INNER_KINDS = ["token_copy", "token_copy", "token_copy", "token_copy", "json_field", "int_field", "flip_bit", "truncate", "delete_range", "dup_range", "set_byte", "zero_fill"]
 # keys a glTF / JSON document may legally carry that trimesh's own exporter never writes, and values worth trying in any numeric slot
 JSON_KEYS = ["byteStride", "byteOffset", "byteLength", "count", "componentType", "type", "normalized", "sparse", "mode", "indices", "mesh", "children", "matrix", "scale", "rotation", "translation", "bufferView", "buffer", "target", "min", "max", "uri", "source", "sampler", "index", "texCoord", "extras", "camera", "skin", "weights", "POSITION", "NORMAL", "COLOR_0", "TEXCOORD_0"]
@@ -61,7 +61,7 @@ SOUP = {
 
 # amplifiers whose cost on the unchanged tree is polynomial in the input rather than proportional to it (recorded findings): they run
 # with a 100 times larger allowance, must still end, and anything beyond that allowance is a violation like any other
-AMP_FINDINGS = {"dxf_flat": "C20-dxf-insert-expansion-quadratic", "3mf_chain_deep": "C20-3mf-component-chain-superlinear"}
+AMP_FINDINGS = {"dxf_flat": "C20-dxf-insert-expansion-quadratic", "3mf_chain_deep": "C20-3mf-component-chain-superlinear", "bz2_bomb": "C20-decompression-unbounded"}
 
 
 # loaders registered by trimesh for formats it cannot write (its own wrappers around meshio / lxml / openctm): arbitrary bytes and
@@ -823,7 +823,7 @@ class C20(World):
         if relaxed and outcome != "step-budget" and res["peak"] <= 20 * budget_mem(total) and (res["steps"] > budget_steps(total) or res["peak"] > budget_mem(total)):
             # the recorded finding reproduced with its predicted behaviour: it ends, at a polynomial cost
             ctx.finding(fid, f"{res['steps']} steps, {res['peak']} bytes for {total} bytes")
-            res = dict(res, steps=0, peak=0)
+            res = dict(res, steps=0, peak=0, rss_delta=0)
         if foreign:
             # time and memory are spent inside a third-party parser trimesh only wraps: counted, not judged. What trimesh's wrapper
             # owns is judged: the kind of outcome, the files it opened, the descriptors, the temporary files.
@@ -831,7 +831,7 @@ class C20(World):
                 ctx.count("probe:third-party-parser-over-budget")
             if outcome in ("step-budget", "memory-error"):
                 return
-            res = dict(res, steps=0, peak=0)
+            res = dict(res, steps=0, peak=0, rss_delta=0)
         if outcome == "step-budget" or res["steps"] > budget_steps(total):
             ctx.fail("time", cfg["fmt"] + "-" + kind, f"{label}: {res['steps']} steps > budget {budget_steps(total)}: {exc}")
         fid3 = "C20-gltf-accessor-without-view-trusts-count"
@@ -908,7 +908,7 @@ class C20(World):
         progs.append(("C20-gltf-accessor-without-view-trusts-count", {"config": cfg1, "seed": 1, "ops": [
             {"op": "payload", "geom": g0, "other": g0, "rs": 1, "corpus": None},
             {"op": "attempt", "fault": {"kind": "unbacked_accessor", "salt": 1, "at": 0, "fmt": "gltf"}, "route": "load", "transport": "bytesio", "rs": 2}]}))
-        for fmt, sub, a, b in (("dxf", "dxf_flat", 120, 120), ("3mf", "3mf_chain_deep", 0, 0)):
+        for fmt, sub, a, b in (("dxf", "dxf_flat", 120, 120), ("3mf", "3mf_chain_deep", 0, 0), ("bz2_stl", "bz2_bomb", 1, 0)):
             kind = "path2d" if fmt == "dxf" else "mesh"
             g = {"kind": "path2d", "salt": 1, "shape": "square"} if fmt == "dxf" else geom
             cfg = {"kind": kind, "fmt": fmt, "routes": ["load"], "weights": {"amplifier": 1.0}, "n_attempts": 1, "stack": False, "enumerate_truncation": False}
